@@ -119,6 +119,7 @@ func runC06(c *Ctx) {
 	c.rule("min-serial-origin", "handle.minSerial is initialised from the CfgSerial passed to RegisterCallback, whose serial field is only produced by ViewVersion from the loaded version", 2)
 	c.rule("event-serial", "newConfigEvent.serial/oldConfig come from the load immediately preceding the install (shared with C05)", 1)
 	c.rule("atomic-pair", "(shared with C05) the (config, serial) pair a callback is registered with comes from one atomic load: a torn pair makes the callback miss a version or see a wrong predecessor", 2)
+	c.rule("every-install-announced", "the monitor submits the new-config event exactly when the storing function returned a non-nil config (no further condition): no installed version is skipped", 1)
 	c.rule("unregister-handshake", "the unregister arm rebuilds the handle list in order (append of every element != the handle, no in-place mutation) and closes the done channel afterwards on every path; the unregister function returns true only after receiving from that done channel", 4)
 
 	k := loadCore(c)
@@ -432,6 +433,7 @@ func runC06(c *Ctx) {
 	// ---- unregister-handshake ---------------------------------------------------------------------
 	c06Unregister(c, k, unregArm)
 	c05Atomic(c, k)
+	k.checkEveryInstallAnnounced("every-install-announced")
 }
 
 func joinKeys(m map[string]bool) string {
